@@ -485,6 +485,13 @@ func (k *call) unchanged(src string) bool {
 }
 
 func nonTrivial(c Case, nkeys int, seq []int, needKeys bool) bool {
+	if needKeys {
+		h.Class("keywords-supplied:"+strconv.Itoa(nkeys), 1)
+		if c.FromEnd != "" && c.Count != "" {
+			h.Class("from-end-with-count", 1)
+		}
+	}
+	h.Class("length:"+strconv.Itoa(min(len(seq), 9)), 1)
 	if len(seq) < 3 || !hasDup(seq) {
 		return false
 	}
